@@ -164,7 +164,6 @@ MAP_KEYS = [['A', 'xs:integer', '1'], ['A', 'xs:int', "xs:int('2')"], ['A', 'xs:
 FN = {
     'abs#1': (['xs:numeric?'], 'xs:numeric?'),
     'string-length#1': (['xs:string?'], 'xs:integer'),
-    'concat#3': (['xs:anyAtomicType?'] * 3, 'xs:string'),
     'count#1': (['item()*'], 'xs:integer'),
     'true#0': ([], 'xs:boolean'),
     'upper-case#1': (['xs:string?'], 'xs:string'),
@@ -851,7 +850,7 @@ def parse_disc(parser, t, ast, failure, where='instance'):
     wrap = _WRAP[where]
     canonical = rs.render(ast)
     if t != canonical and ep_parse(parser, wrap(canonical)) is None:
-        return Disc(f'C18/parse/{where}/blanks/{_construct(ast)}/{_slug(failure)}', 'parses', repr(failure[-1])[:200], wrap(t))
+        return Disc(f'C18/parse/{where}/blanks/{_slug(failure)}/{_construct(ast)}', 'parses', repr(failure[-1])[:200], wrap(t))
     m = min_unparsable(parser, ast, wrap)
     if where == 'instance' and m[0] != 'empty' and m[0][0] == 'function' and m[0][1] is not None:
         # every parameter/return type parses on its own: which one does the signature validation refuse?
@@ -860,7 +859,7 @@ def parse_disc(parser, t, ast, failure, where='instance'):
             if f2 is not None:
                 return parse_disc(parser, rs.render(ch), ch, f2, 'signature')
     f = ep_parse(parser, wrap(rs.render(m))) or failure
-    return Disc(f'C18/parse/{where}/{_construct(m)}/{_slug(f)}', 'parses', repr(f[-1])[:200],
+    return Disc(f'C18/parse/{where}/{_slug(f)}/{_construct(m)}', 'parses', repr(f[-1])[:200],
                 wrap(rs.render(m)) + ('   (inside %s)' % canonical if m != ast else ''))
 
 
@@ -955,18 +954,6 @@ def judge_judgement(case, rec: Recorder | None = None) -> list[Disc]:
         if t != rs.render(ast):
             pclasses.append('t:blanks')
 
-        # 0. does elementpath accept the type at all?
-        pf = ep_parse(parser, _WRAP['instance'](t))
-        if pf is not None:
-            if static and pf[0] == 'err':
-                pclasses.append('pair:static-error-raised')
-            else:
-                discs.append(parse_disc(parser, t, ast, pf))
-                pclasses.append('pair:unparsable')
-            if rec is not None:
-                rec.case([flavour, v, rs.render(ast)], nontrivial=False, classes=pclasses)
-            continue
-
         itcls = 'empty-sequence()' if ast[0] == 'empty' else item_type_class(ast[0])
         occ = '' if ast[0] == 'empty' else ast[1]
         if static:
@@ -1001,17 +988,7 @@ def judge_judgement(case, rec: Recorder | None = None) -> list[Disc]:
                      'offender': offender}
             return model_bucket(feats) or f'C18/{obsname}/{itcls}/{offender}/{kind}'
 
-        # 1. (V) instance of T, inline and through a variable
-        o_inl = ep_eval(parser, f'({vexpr}) instance of {t}', root, item)
-        o_var = ep_eval(parser, f'$v instance of {t}', root, item, {'v': pyval})
-        k_inl, k_var = verdict(o_inl), verdict(o_var)
-        if k_inl:
-            discs.append(Disc(bucket('instance', k_inl, o_inl), want, _show(o_inl), f'({vexpr}) instance of {t}'))
-        if k_var and k_var != k_inl:
-            discs.append(Disc(bucket('instance-var', k_var, o_var), want, _show(o_var),
-                              f'$v := {vexpr}; $v instance of {t}'))
-
-        # 2. the API function
+        # 0. the API function (string driven, independent of the expression parser)
         try:
             o_api = ('ok', match_sequence_type(pyval, t, parser))
         except ElementPathError as e:
@@ -1021,6 +998,28 @@ def judge_judgement(case, rec: Recorder | None = None) -> list[Disc]:
         k_api = verdict(o_api)
         if k_api:
             discs.append(Disc(bucket('api', k_api, o_api), want, _show(o_api), f'match_sequence_type({vexpr}, {t!r})'))
+
+        # 1. does the expression parser accept the type at all?
+        pf = ep_parse(parser, _WRAP['instance'](t))
+        if pf is not None:
+            if static and pf[0] == 'err':
+                pclasses.append('pair:static-error-raised')
+            else:
+                discs.append(parse_disc(parser, t, ast, pf))
+                pclasses.append('pair:unparsable')
+            if rec is not None:
+                rec.case([flavour, v, rs.render(ast)], nontrivial=False, classes=pclasses)
+            continue
+
+        # 2. (V) instance of T, inline and through a variable
+        o_inl = ep_eval(parser, f'({vexpr}) instance of {t}', root, item)
+        o_var = ep_eval(parser, f'$v instance of {t}', root, item, {'v': pyval})
+        k_inl, k_var = verdict(o_inl), verdict(o_var)
+        if k_inl:
+            discs.append(Disc(bucket('instance', k_inl, o_inl), want, _show(o_inl), f'({vexpr}) instance of {t}'))
+        if k_var and k_var != k_inl:
+            discs.append(Disc(bucket('instance-var', k_var, o_var), want, _show(o_var),
+                              f'$v := {vexpr}; $v instance of {t}'))
 
         # 3. treat as: judged against the reference; a verdict that merely repeats elementpath's own
         #    (wrong) instance-of answer is the same root cause and already reported above
@@ -1085,9 +1084,6 @@ def model_bucket(f):
     inst = obs in ('instance', 'instance-var')
     offender = f['desc'][f['bad']] if f['bad'] is not None else None
     nt = _inner_node_test(ast)
-    # M1 instance of <kind test>? / <kind test>*: the first item that fails the item type ends the loop with True
-    if inst and f['label'] == 'kind-test' and fp and f['occ'] in ('?', '*') and f['bad'] is not None:
-        return 'C18/instance/kind-test/nonmatching-item-accepted-under-?*'
     # M2 type argument of element()/attribute() that is not an atomic type: lookup fails instead of derives-from
     if nt is not None and nt[2] in rs.NON_ATOMIC and kind.startswith('error:'):
         return f'C18/{obs}/node-test-type-argument/{nt[2]}/{kind}'
@@ -1101,6 +1097,47 @@ def model_bucket(f):
         x = offender if fp else (f['desc'][0] if f['desc'] else None)
         if x is not None and x[0] in ('map', 'array'):
             return f'C18/{obs}/typed-function-test-on-{x[0]}/' + ('false-positive' if fp else 'false-negative')
+    # M8 attribute() / namespace-node() applied to an element select its attributes / namespace nodes (they double
+    #    as abbreviated axis steps), so the element itself passes the test
+    if inst and it is not None and it[0] in ('attribute', 'nsnode') and fp and offender is not None \
+            and offender[0] == 'node' and offender[1] == 'element':
+        return 'C18/instance/attribute-or-namespace-test-on-element/false-positive'
+    # M9 attribute(p:name): the lexical QName is compared with the expanded attribute name
+    if inst and it is not None and it[0] == 'attribute' and it[1] and ':' in it[1] and fn:
+        return 'C18/instance/attribute-test-prefixed-name/false-negative'
+    # M3b attribute(N, T): without a schema the type argument is ignored (pinned by tests/test_xpath2_parser.py
+    #     test_attribute_accessor); match_sequence_type accepts xs:untyped for attributes
+    if nt is not None and nt[0] == 'attribute' and nt[2] is not None and fp and offender is not None \
+            and offender[0] == 'node' and offender[1] == 'attribute':
+        return f'C18/{obs}/attribute-type-argument/{nt[2]}/false-positive'
+    # M13 match_sequence_type does not know parenthesized item types
+    if obs == 'api' and "['paren'," in repr(ast):
+        return 'C18/api/parenthesized-item-type/' + ('false-positive' if fp else 'false-negative' if fn else kind)
+    # M10/M11 match_sequence_type never matches namespace-node() and processing-instruction(N)
+    if obs == 'api' and it is not None and fn and f['desc'] and f['desc'][0][0] == 'node':
+        if it[0] == 'nsnode' and f['desc'][0][1] == 'namespace':
+            return 'C18/api/namespace-node-test/false-negative'
+        if it[0] == 'pi' and it[1] and f['desc'][0][1] == 'processing-instruction':
+            return 'C18/api/pi-name-test/false-negative'
+    # M6 match_sequence_type: an occurrence indicator behind a map/array test that contains a typed function
+    #    test is not recognised (the string contains ") as ")
+    if obs == 'api' and f['occ'] and it is not None and it[0] in ('map', 'array') and ') as ' in rs.render_item(it):
+        return 'C18/api/occurrence-after-nested-function-test/' + ('false-positive' if fp else 'false-negative' if fn else kind)
+    # M7 match_sequence_type splits a typed function test at ', ' and ') as ': parameters that contain either are cut
+    if obs == 'api' and it is not None and it[0] == 'function' and it[1] is not None and (fp or fn) and \
+            any(', ' in rs.render(a) or ') as ' in rs.render(a) for a in it[1]):
+        return 'C18/api/typed-function-test/string-split-of-nested-parameters/' + ('false-positive' if fp else 'false-negative')
+    # M1 instance of <kind test>? / <kind test>*: the first item that fails the item type ends the loop with True
+    #    (also reached when another defect makes a matching item look non-matching, e.g. attribute(p:y)?)
+    if inst and f['label'] == 'kind-test' and fp and f['occ'] in ('?', '*'):
+        return 'C18/instance/kind-test/nonmatching-item-accepted-under-?*'
+    # M12 the token of an attribute test has no usable source text ('attribute', 'attribute *'): signatures that
+    #     mention attribute tests inside map()/array() never compare equal
+    if it is not None and it[0] == 'function' and it[1] is not None and (fp or fn):
+        x = offender if fp else (f['desc'][0] if f['desc'] else None)
+        if 'attribute(' in rs.render_item(it) or (x is not None and x[0] == 'func' and
+                                                   'attribute(' in rs.render_item(['function', x[1], x[2]])):
+            return f'C18/{obs}/typed-function-test/attribute-test-in-signature/' + ('false-positive' if fp else 'false-negative')
     # M5 typed function test on a function item: which component does elementpath's subtype relation judge
     #    differently from XPath 3.1 2.5.6?  (unsound = accepts a non-subtype, incomplete = refuses a subtype)
     if it is not None and it[0] == 'function' and it[1] is not None and (fp or fn):
@@ -1112,7 +1149,9 @@ def model_bucket(f):
                 r_ep, r_ref = bool(R(rs.render(sup), rs.render(sub))), rs.subtype(sub, sup)
                 if r_ep != r_ref:
                     how = 'unsound' if r_ep else 'incomplete'
-                    return f'C18/{obs}/typed-function-test/subtype-{how}/{pair_class(sup, sub)}'
+                    if r_ep:
+                        sup, sub = innermost_unsound(sup, sub)
+                    return f'C18/{obs}/typed-function-test/subtype-{how}/{occ_class(sup, sub)}'
     return None
 
 
@@ -1228,6 +1267,40 @@ def pair_class(a, b):
     return f'{_kind_of(a)}[{_occ_of(a)}]~{_kind_of(b)}[{_occ_of(b)}]'
 
 
+def _typed_fn(ast):
+    if ast[0] == 'empty':
+        return False
+    it = rs.strip_paren(ast[0])
+    return it[0] == 'function' and it[1] is not None
+
+
+def occ_class(a, b):
+    """bucket component for the subtype relation R(a, b): occurrence pattern; typed function tests are marked
+    (their parameter and return types recurse into the relation, and the string ends with the return type's
+    indicator); the item kinds are added only when both sides have the same occurrence and no function test is
+    involved (then the item-type part of the relation decided)"""
+    oa, ob = _occ_of(a), _occ_of(b)
+    if _typed_fn(a) or _typed_fn(b):
+        return f'{oa}<-{ob}/typed-function-test'
+    if oa == ob:
+        return f'{oa}<-{ob}/{_kind_of(a)}~{_kind_of(b)}'
+    return f'{oa}<-{ob}'
+
+
+def innermost_unsound(sup, sub):
+    """for R(sup, sub) True without sub being a subtype of sup: descend into typed function tests to the
+    parameter/return pair on which the relation itself gives the unsound answer"""
+    from elementpath.sequence_types import is_sequence_type_restriction as R
+    if _typed_fn(sup) and _typed_fn(sub):
+        a, b = rs.strip_paren(sup[0]), rs.strip_paren(sub[0])
+        if len(a[1]) == len(b[1]):
+            comps = [(pb, pa) for pa, pb in zip(a[1], b[1])] + [(a[2], b[2])]     # (super, sub) as R recurses
+            for c_sup, c_sub in comps:
+                if R(rs.render(c_sup), rs.render(c_sub)) and not rs.subtype(c_sub, c_sup):
+                    return innermost_unsound(c_sup, c_sub)
+    return sup, sub
+
+
 def witness(sup_ast, sub_ast, vals=None, mm_sup=None, mm_sub=None):
     """a described value matching sub but not sup (or None)"""
     p = _pool()
@@ -1270,12 +1343,12 @@ def judge_subtype_pool(case, rec: Recorder | None = None) -> list[Disc]:
             # sound: S = types[j] restricts T = types[i]
             w = witness(asts[i], asts[j], mm_sup=mm[i], mm_sub=mm[j])
             if w is not None:
-                discs.append(Disc(f'C18/subtype/unsound/{pair_class(asts[i], asts[j])}', False, True,
+                discs.append(Disc(f'C18/subtype/unsound/{occ_class(*innermost_unsound(asts[i], asts[j]))}', False, True,
                                   f'R({types[i]!r}, {types[j]!r}) is True but {w!r} matches only the second'))
             # transitive: R(i, j) and R(j, k) => R(i, k)
             for k in range(n):
                 if r(j, k) and not r(i, k):
-                    discs.append(Disc(f'C18/subtype/not-transitive/{pair_class(asts[i], asts[k])}', True, False,
+                    discs.append(Disc(f'C18/subtype/not-transitive/{occ_class(asts[i], asts[k])}', True, False,
                                       f'R({types[i]!r}, {types[j]!r}) and R({types[j]!r}, {types[k]!r}) but not '
                                       f'R({types[i]!r}, {types[k]!r})'))
             if rec is not None:
@@ -1321,13 +1394,13 @@ def judge_subtype_gen(case, rec: Recorder | None = None) -> list[Disc]:
                 continue
             w = witness(asts[i], asts[j])
             if w is not None:
-                discs.append(Disc(f'C18/subtype/unsound/{pair_class(asts[i], asts[j])}', False, True,
+                discs.append(Disc(f'C18/subtype/unsound/{occ_class(*innermost_unsound(asts[i], asts[j]))}', False, True,
                                   f'R({ts[i]!r}, {ts[j]!r}) is True but {w!r} matches only the second'))
             for k in range(3):
                 if k != j and k != i and rel[j, k]:
                     held = True
                     if not rel[i, k]:
-                        discs.append(Disc(f'C18/subtype/not-transitive/{pair_class(asts[i], asts[k])}', True, False,
+                        discs.append(Disc(f'C18/subtype/not-transitive/{occ_class(asts[i], asts[k])}', True, False,
                                           f'R({ts[i]!r}, {ts[j]!r}) and R({ts[j]!r}, {ts[k]!r}) but not R({ts[i]!r}, {ts[k]!r})'))
     if rec is not None:
         related = sum(1 for (i, j), x in rel.items() if x and i != j)
@@ -1596,8 +1669,7 @@ def judge_signature(case, rec: Recorder | None = None) -> list[Disc]:
     tag = f'{name}#{arity}'
     classes = ['sig:call']
     if got[0] == 'esc':
-        discs.append(Disc(escape_bucket('C18', got[1]) + '/' + tag, 'value or ElementPathError', repr(got[1]), expr))
-        classes.append('sig:escape')
+        classes.append('sig:escape')      # not a successful call; escaping exceptions belong to C03
     elif got[0] == 'err':
         classes.append('sig:error')
     else:
